@@ -100,5 +100,8 @@ func genC20Skip(g *Gen) error {
 		}
 		g.P("def src_%s : String := %s", f[2], leanStr(g.Src(fd.Body)))
 	}
-	return genC20Idx(g) // reader-construction layer (c20idx.go)
+	if err := genC20Idx(g); err != nil { // reader-construction layer (c20idx.go)
+		return err
+	}
+	return genC20TC(g) // time cluster (c20tc.go)
 }
